@@ -184,14 +184,11 @@ func (ig *ingest) deliver(e *Effect) {
 		// drained messages: read at the key Read(State.height)
 		ok := false
 		var found string
-		m.Walk(func(t *Term) {
+		// values read before the delivery call (which may itself advance the height / touch the cache) are frozen: look through
+		unfreeze(m).Walk(func(t *Term) {
 			if t.Op == "lookup" && len(t.Args) == 2 && t.Args[0].Key() == Field(rmf, "futureCache").Key() {
-				found = t.Args[1].Key()
-				key := t.Args[1]
-				if key.Op == "pre" && len(key.Args) == 1 {
-					key = key.Args[0] // the height as read before the delivery call (which may itself advance the height)
-				}
-				if ev.Same(key, k.SHeight) {
+				found = PP(t.Args[1])
+				if ev.Same(t.Args[1], k.SHeight) {
 					ok = true
 				}
 			}
@@ -652,4 +649,20 @@ func runProof(a *Analyzer, r *Results) {
 	if nTrue == 0 {
 		r.Undecided = append(r.Undecided, "ValidatePreparedProof has no accepting return for a non-empty proof")
 	}
+}
+
+
+// unfreeze removes the pre(...) wrappers (values read before a call that may write them).
+func unfreeze(t *Term) *Term {
+	if t.Op == "pre" && len(t.Args) == 1 {
+		return unfreeze(t.Args[0])
+	}
+	if len(t.Args) == 0 {
+		return t
+	}
+	na := make([]*Term, len(t.Args))
+	for i, a := range t.Args {
+		na[i] = unfreeze(a)
+	}
+	return rebuild(t, na)
 }
